@@ -16,6 +16,9 @@ what is proved instead is `arith_exact_partial` (exact outside the two regions) 
 `arith_overflow_never_acceptable` (inside `bigint_overflow_wraps` the code is *always* wrong and never
 reports), i.e. `arith_acceptable_iff`. Likewise for unary minus (`neg_acceptable_iff`, an exact
 characterisation) and DIV (`intdiv_partial`). `%` and `/` on integers are exact (`mod_*`, `div_round_exact`).
+DECIMAL operands (`apd` is a parameter, taken as exact): `dec_add_sub_exact`, `dec_mul_exact`,
+`dec_mod_partial` (+ `int_mod_never_fails`), `dec_div_partial` (no double rounding: `trunc_then_round`),
+`dec_intdiv_partial`, with findings `mod_quotient_exceeds_precision`, `div_internal_scale_not_above_final`.
 -/
 import Gms.Model.Num
 import Gms.Generated.C25
@@ -516,6 +519,165 @@ theorem facts_match_types :
 theorem facts_match_literals :
     (∀ e ∈ Gms.Generated.C25.litTypeTable, litTy e.1 = e.2) ∧ 60 ≤ Gms.Generated.C25.litTypeTable.length := by
   decide
+
+
+
+theorem numDigits_pos (n : Nat) : 1 ≤ numDigits n := by
+  rw [numDigits.eq_1]; split <;> omega
+
+theorem numDigits_mono : ∀ n m : Nat, m ≤ n → numDigits m ≤ numDigits n := by
+  intro n
+  induction n using Nat.strongRecOn with
+  | _ n ih =>
+    intro m hm
+    by_cases hn : n < 10
+    · have hm' : m < 10 := by omega
+      rw [numDigits.eq_1 n, numDigits.eq_1 m, if_pos hn, if_pos hm']
+      exact Nat.le_refl _
+    · rw [numDigits.eq_1 n, if_neg hn]
+      by_cases hm' : m < 10
+      · rw [numDigits.eq_1 m, if_pos hm']; omega
+      · rw [numDigits.eq_1 m, if_neg hm']
+        have := ih (n / 10) (by omega) (m / 10) (Nat.div_le_div_right hm)
+        omega
+
+/-- On two integers `%` never hits the `apd.Rem` precision failure: the decimal path computes exactly
+`implMod`. -/
+theorem int_mod_never_fails (a b : Int) : implDecMod (Dec.ofInt a) (Dec.ofInt b) = implMod a b := by
+  unfold implDecMod implMod Dec.ofInt Dec.at
+  simp only [Nat.max_self, Nat.sub_self, Int.pow_zero, Int.mul_one]
+  by_cases hb : b = 0
+  · simp [hb]
+  · simp only [hb, if_false]
+    have h1 : a.natAbs / b.natAbs ≤ a.natAbs := Nat.div_le_self _ _
+    have h2 := numDigits_mono _ _ h1
+    have : ¬ numDigits (a.natAbs / b.natAbs) > max (numDigits a.natAbs) (numDigits b.natAbs) := by
+      have := Nat.le_max_left (numDigits a.natAbs) (numDigits b.natAbs)
+      omega
+    rw [if_neg this]
+
+theorem dec_mod_partial (a b : Dec) (h : ¬ mod_quotient_exceeds_precision a b) :
+    implDecMod a b = exactDecMod a b := by
+  unfold implDecMod exactDecMod
+  by_cases hb : b.coeff = 0
+  · simp [hb]
+  · simp only [hb, if_false]
+    have : ¬ numDigits ((a.at (max a.scale b.scale)).natAbs / (b.at (max a.scale b.scale)).natAbs)
+        > max (numDigits a.coeff.natAbs) (numDigits b.coeff.natAbs) := fun hh => h ⟨hb, hh⟩
+    rw [if_neg this]
+
+/-- coefficient re-expressed at a larger scale denotes the same number -/
+theorem Dec.at_spec (a : Dec) (s : Nat) (h : a.scale ≤ s) : a.at s * 10 ^ a.scale = a.coeff * 10 ^ s := by
+  unfold Dec.at
+  rw [Int.mul_assoc, ← Int.pow_add, Nat.sub_add_cancel h]
+
+/-- `+`/`-` on decimals: the result `c / 10^s` is exactly `a ± b` (stated without division: both
+sides multiplied by `10^s`), at scale `max`. -/
+theorem dec_add_sub_exact (a b : Dec) :
+    (∃ c, implDecArith .add a b = .dec c (max a.scale b.scale) ∧
+      c * 10 ^ a.scale * 10 ^ b.scale = (a.coeff * 10 ^ b.scale + b.coeff * 10 ^ a.scale) * 10 ^ (max a.scale b.scale)) ∧
+    (∃ c, implDecArith .sub a b = .dec c (max a.scale b.scale) ∧
+      c * 10 ^ a.scale * 10 ^ b.scale = (a.coeff * 10 ^ b.scale - b.coeff * 10 ^ a.scale) * 10 ^ (max a.scale b.scale)) := by
+  have ha := Dec.at_spec a (max a.scale b.scale) (Nat.le_max_left _ _)
+  have hb := Dec.at_spec b (max a.scale b.scale) (Nat.le_max_right _ _)
+  constructor
+  · refine ⟨_, rfl, ?_⟩
+    grind
+  · refine ⟨_, rfl, ?_⟩
+    grind
+
+theorem dec_mul_exact (a b : Dec) :
+    implDecArith .mul a b = .dec (a.coeff * b.coeff) (a.scale + b.scale) := rfl
+
+
+/-- General form of "truncate at a finer scale, then round half-up" = "round half-up": for `k ≥ 1`
+extra digits there is no double-rounding error. -/
+theorem trunc_then_round (N D j : Nat) (hD : 0 < D) :
+    (N * 10 ^ (j + 1) / D + 5 * 10 ^ j) / 10 ^ (j + 1) = (2 * N + D) / (2 * D) := by
+  have h1 : N * 10 ^ (j + 1) / D + 5 * 10 ^ j = (N * 10 ^ (j + 1) + 5 * 10 ^ j * D) / D := by
+    rw [Nat.add_mul_div_right _ _ hD]
+  rw [h1, Nat.div_div_eq_div_mul]
+  have hp : 0 < 5 * 10 ^ j := Nat.mul_pos (by omega) (Nat.pow_pos (by omega))
+  have h2 : (2 * N + D) / (2 * D) = ((2 * N + D) * (5 * 10 ^ j)) / ((2 * D) * (5 * 10 ^ j)) := by
+    rw [Nat.mul_div_mul_right _ _ hp]
+  rw [h2]
+  have e1 : (2 * N + D) * (5 * 10 ^ j) = N * 10 ^ (j + 1) + 5 * 10 ^ j * D := by grind
+  have e2 : 2 * D * (5 * 10 ^ j) = D * 10 ^ (j + 1) := by grind
+  rw [e1, e2]
+
+/-- `/` with a DECIMAL operand returns the exact quotient rounded half away from zero to the final
+scale, whenever the internal working scale is above the final scale. -/
+theorem dec_div_partial (a b : Dec) (h : ¬ div_internal_scale_not_above_final a b) :
+    implDecDiv a b = exactDecDiv a b := by
+  unfold div_internal_scale_not_above_final at h
+  unfold implDecDiv exactDecDiv
+  by_cases hb : b.coeff = 0
+  · simp [hb]
+  · simp only [hb, if_false]
+    rw [if_neg h]
+    have hD : 0 < b.coeff.natAbs * 10 ^ a.scale :=
+      Nat.mul_pos (Int.natAbs_pos.mpr hb) (Nat.pow_pos (by omega))
+    obtain ⟨j, hj⟩ : ∃ j, divInternalScale a.scale b.scale = divFinalScale a.scale + (j + 1) :=
+      ⟨divInternalScale a.scale b.scale - divFinalScale a.scale - 1, by omega⟩
+    have e1 : divInternalScale a.scale b.scale - divFinalScale a.scale - 1 = j := by omega
+    have e2 : divInternalScale a.scale b.scale - divFinalScale a.scale = j + 1 := by omega
+    have e3 : a.coeff.natAbs * 10 ^ (divInternalScale a.scale b.scale + b.scale)
+        = (a.coeff.natAbs * 10 ^ (divFinalScale a.scale + b.scale)) * 10 ^ (j + 1) := by
+      rw [hj, Nat.mul_assoc, ← Nat.pow_add]
+      congr 2
+      omega
+    rw [e1, e2, e3, trunc_then_round _ _ j hD]
+
+/-- `DIV` with a DECIMAL operand is acceptable unless it is declared unsigned and the quotient is negative. -/
+theorem dec_intdiv_partial (u : Bool) (a b : Dec) (h : ¬ intdiv_dec_negative_as_unsigned u a b) :
+    acceptable (decIntDivResOk u) (implDecIntDiv u a b) (exactDecIntDiv a b) := by
+  unfold implDecIntDiv exactDecIntDiv
+  by_cases hb : b.coeff = 0
+  · simp [hb, acceptable]
+  · simp only [hb, if_false]
+    generalize hq : Int.tdiv (a.at (max a.scale b.scale)) (b.at (max a.scale b.scale)) = q
+    have hq' : ¬ (u = true ∧ q < 0 ∧ minI64 ≤ q) := fun hh => h ⟨hh.1, hb, by rw [hq]; exact hh.2.1, by rw [hq]; exact hh.2.2⟩
+    by_cases hr : q < minI64 ∨ q > maxI64
+    · rw [if_pos hr]
+      right
+      refine ⟨rfl, q, rfl, ?_⟩
+      intro hh
+      have := hh.1
+      unfold inI64 at this
+      omega
+    · rw [if_neg hr]
+      left
+      have : ¬ (u = true ∧ q < 0) := by
+        intro hh; exact hq' ⟨hh.1, hh.2, by omega⟩
+      rw [if_neg this]
+
+theorem finding_mod_quotient_exceeds_precision :
+    ∃ a b, mod_quotient_exceeds_precision a b ∧ implDecMod a b = .errOther ∧ exactDecMod a b = .dec 0 2 :=
+  ⟨Dec.ofInt 127, ⟨1, 2⟩, by
+    simp [mod_quotient_exceeds_precision, implDecMod, exactDecMod, Dec.ofInt, Dec.at, numDigits]⟩
+
+/-- `SELECT 2.00000/3` → `0.666666666`; the exact quotient rounds to `0.666666667`. -/
+theorem finding_div_internal_scale_not_above_final :
+    ∃ a b, div_internal_scale_not_above_final a b ∧ implDecDiv a b = .dec 666666666 9 ∧
+      exactDecDiv a b = .dec 666666667 9 :=
+  ⟨⟨200000, 5⟩, Dec.ofInt 3, by decide⟩
+
+example : ¬ div_internal_scale_not_above_final ⟨20000, 4⟩ (Dec.ofInt 3) ∧
+    implDecDiv ⟨20000, 4⟩ (Dec.ofInt 3) = .dec 66666667 8 ∧
+    implDecArith .add ⟨15, 1⟩ ⟨225, 2⟩ = .dec 375 2 ∧ implDecArith .mul ⟨15, 1⟩ ⟨225, 2⟩ = .dec 3375 3 ∧
+    implDecIntDiv false ⟨-75, 1⟩ (Dec.ofInt 2) = .int (-3) := by decide
+
+
+/-- The integer `/` model is the decimal `/` model at scale 0 (one code path in `Div.Eval`). -/
+theorem int_div_is_dec_div (a b : Int) : implDecDiv (Dec.ofInt a) (Dec.ofInt b) = implDiv a b := by
+  unfold implDecDiv implDiv Dec.ofInt
+  have hS : divInternalScale 0 0 = 9 := by decide
+  have hf : divFinalScale 0 = 4 := by decide
+  simp only [hS, hf, divPrecInc]
+  by_cases hb : b = 0
+  · simp [hb]
+  · simp only [hb, if_false]
+    simp only [show ¬ ((9:Nat) ≤ 4) by omega, if_false, Nat.add_zero, Nat.pow_zero, Nat.mul_one]
 
 
 end Gms.C25
